@@ -86,6 +86,25 @@ def check_provider(ctx, rep, f):
         for a in atoms:
             if a[0] == 'in' and a[3] is False and (a[2] in universes or a[2] in alias) and (a[1] in texts or strip_cast(a[1]) in stexts):
                 ok = True
+        if not ok:
+            # retry loop on a named flag:  x = draw(); taken = x in U; while taken: x = draw(); taken = x in U   -- at the exit
+            # the last evaluation of `x in U` was false and x has not been re-bound since
+            prev = None
+            for blk in ast.walk(f.node):
+                for fld in ('body', 'orelse'):
+                    lst = getattr(blk, fld, None)
+                    if isinstance(lst, list) and r in lst and lst.index(r) > 0:
+                        prev = lst[lst.index(r) - 1]
+            if isinstance(prev, ast.While) and isinstance(prev.test, ast.Name) and not prev.orelse and not any(isinstance(x, ast.Break) for x in ast.walk(prev)):
+                flag = prev.test.id
+                sets = [st0 for st0 in walk_no_nested(f.node) if isinstance(st0, ast.Assign) and len(st0.targets) == 1 and u(st0.targets[0]) == flag]
+                rhs = {u(st0.value) for st0 in sets}
+                last_in_block = all(any(isinstance(getattr(b0, fld, None), list) and getattr(b0, fld) and (getattr(b0, fld)[-1] is st0 or (st0 in getattr(b0, fld) and getattr(b0, fld)[getattr(b0, fld).index(st0) + 1:getattr(b0, fld).index(st0) + 2] == [prev]))
+                                        for b0 in ast.walk(f.node) for fld in ('body', 'orelse')) for st0 in sets)
+                if len(rhs) == 1 and sets and last_in_block:
+                    t0 = sets[0].value
+                    if isinstance(t0, ast.Compare) and len(t0.ops) == 1 and isinstance(t0.ops[0], ast.In) and u(t0.left) in texts and (u(t0.comparators[0]) in universes or u(t0.comparators[0]) in alias):
+                        ok = True
         # raise-on-exhaustion providers: `for s in symbols: ... if symbol not in Sigma: return symbol`
         if ok:
             rep.holds(RULE + '.provider', f, r, 'the returned name is dominated by the test that it is not in the universe')
